@@ -188,6 +188,8 @@ func genTree(rng *rand.Rand, depth int, fifoOK bool) []*tnode {
 			k = "sym"
 		case r == 3 && fifoOK:
 			k = "fifo"
+		case r == 4 && fifoOK:
+			k = "sock"
 		}
 		nd := &tnode{Name: nm, Kind: k}
 		if k == "sym" {
@@ -203,7 +205,7 @@ var symTargets = []string{"dangling", "dir-inside", "file-inside", "file-outside
 
 func hasFifo(ns []*tnode) bool {
 	for _, n := range ns {
-		if n.Kind == "fifo" || hasFifo(n.Children) {
+		if n.Kind == "fifo" || n.Kind == "sock" || hasFifo(n.Children) {
 			return true
 		}
 	}
@@ -244,6 +246,16 @@ func makeTree(dir, fix string, ns []*tnode) {
 			must(os.Symlink(t, p))
 		case "fifo":
 			must(syscall.Mkfifo(p, 0644))
+		case "sock":
+			// a UNIX socket left behind by a server; bound by its short name
+			// from inside the directory (socket paths are limited to 108 bytes)
+			wd, _ := os.Getwd()
+			must(os.Chdir(dir))
+			fd, err := syscall.Socket(syscall.AF_UNIX, syscall.SOCK_STREAM, 0)
+			must(err)
+			must(syscall.Bind(fd, &syscall.SockaddrUnix{Name: n.Name}))
+			syscall.Close(fd)
+			must(os.Chdir(wd))
 		}
 	}
 }
@@ -385,7 +397,8 @@ func (p *play) config() string {
 	if p.Repeat {
 		sb.WriteString("  repeat from b\n  repeat 2 times\n")
 	}
-	sb.WriteString("end\naudience\n  bob watches alice v\n  bob watches alice o\n")
+	// a variable computed by the audience and watched: its csv file has no actor part (bob..dbl.csv)
+	sb.WriteString("end\naudience\n  bob watches alice v\n  bob watches alice o\n  bob computes dbl as [alice v] * 2\n  bob watches dbl\n")
 	if p.Fouled && p.FoulKind == "audit" {
 		sb.WriteString("  bob expects always: [alice v] < 0\n")
 	} else {
